@@ -17,7 +17,8 @@ META = {
     'explanation': 'C13: SWTForward is run on input atoms; every band element of every level minus the pywt.swt2 basis-response row must stay within '
                    'tau; the output must be a list of J tensors (N,C,4,H,W); the run on a circularly shifted arrangement of the same atoms must equal '
                    'the shifted outputs exactly (all shifts of the listed sizes).',
-    'bounds': {'quick': {'wavelets': WAVES_Q, 'modes': MODES, 'J': [1, 2, 3], 'sizes': 'J=1: 4x4,6x4,2x6; J=2: 4x4,8x4; J=3: 8x8 (3 wavelets)', 'shifts': 'all (s,t) for <=16 pixels, 3 shifts otherwise'},
+    'bounds': {'added_families': ['contexts nograd / reqgrad / transposed / chlast (db2 J=2 8x4 B=C=2)', 'same instance called on another size first (J=2 8x8 after 6x6; J=3 8x8 after 4x12)', 'J=3 8x8 with (B,C) = (1,2), (2,1)'],
+               'quick': {'wavelets': WAVES_Q, 'modes': MODES, 'J': [1, 2, 3], 'sizes': 'J=1: 4x4,6x4,2x6; J=2: 4x4,8x4; J=3: 8x8 (3 wavelets)', 'shifts': 'all (s,t) for <=16 pixels, 3 shifts otherwise'},
                'thorough': {'wavelets': '40 discrete wavelets with L<=16', 'modes': MODES, 'J': [1, 2, 3], 'sizes': 'all H,W in multiples of 2^J up to 16'}},
     'outside': 'sizes that are not multiples of 2^J (PyWavelets refuses them), sizes above 16, J>3',
     'assumptions': ['real-arithmetic semantics', 'pywt.swt2(trim_approx=False) re-ordered finest-first is the reference'],
